@@ -150,6 +150,25 @@ def _replay_subprocess(modname, path, timeout=300):
     return None
 
 
+def _replay_many(modname, paths, timeout=600):
+    """Replay several case files in ONE fresh interpreter. Returns {path: violations|None}."""
+    if not paths:
+        return {}
+    cmd = [sys.executable, os.path.join(VERIF, "lib", "run.py"), "--module", modname, "--replay-many"] + list(paths)
+    try:
+        p = subprocess.run(cmd, capture_output=True, text=True, timeout=timeout, env=dict(os.environ), cwd=os.path.join(VERIF, "lib"))
+    except subprocess.TimeoutExpired:
+        return dict((x, None) for x in paths)
+    out = dict((x, None) for x in paths)
+    for line in p.stdout.splitlines():
+        if line.startswith("REPLAY-RESULT "):
+            body = json.loads(line[len("REPLAY-RESULT "):])
+            out[body["path"]] = body["violations"]
+    if any(v is None for v in out.values()):
+        sys.stderr.write("replay subprocess problem: rc=%s\n%s\n%s\n" % (p.returncode, p.stdout[-1500:], p.stderr[-3000:]))
+    return out
+
+
 def write_replay(prop, kind, case, signature, detail, extra=None):
     d = os.path.join(VERIF, "replays", kind) if kind else os.path.join(VERIF, "replays")
     os.makedirs(d, exist_ok=True)
@@ -177,34 +196,36 @@ def run_check(modname, tier, seed, jobs=None):
     n_viol = 0
     harness_errors = []
 
-    # 1. known findings: replay witnesses; still failing -> KNOWN-FINDING + excluded
+    # 1. known findings: replay witnesses (fresh interpreter); still failing -> KNOWN-FINDING + excluded
     known_open, known_fixed = load_known(prop)
     known_sigs = []
     known_report = []
+    wpaths = [os.path.join(VERIF, kf["witness"]) for kf in known_open + known_fixed if os.path.exists(os.path.join(VERIF, kf["witness"]))]
+    wres = _replay_many(modname, wpaths)
     for kf in known_open:
         wpath = os.path.join(VERIF, kf["witness"])
-        with open(wpath) as fh:
-            w = json.load(fh)
-        vs = mod.replay(w["case"])
+        vs = wres.get(wpath)
+        if vs is None:
+            harness_errors.append({"spec": "known-finding witness", "harness_error": "could not replay %s" % wpath})
+            continue
         sigs = [v["signature"] for v in vs]
         if kf["signature"] in sigs:
             lines.append("KNOWN-FINDING: property=%s %s" % (prop, kf["what"]))
             known_sigs.append(kf["signature"])
             known_report.append({"signature": kf["signature"], "still_fails": True})
-            for v in vs:
-                if v["signature"] != kf["signature"]:
-                    pass
         else:
             known_report.append({"signature": kf["signature"], "still_fails": False})
     # 2. regression tier: witnesses of fixed defects must pass
     regress = 0
     for kf in known_fixed:
         wpath = os.path.join(VERIF, kf["witness"])
-        if not os.path.exists(wpath):
+        if wpath not in wres:
             continue
-        with open(wpath) as fh:
-            w = json.load(fh)
-        vs = [v for v in mod.replay(w["case"]) if v["signature"] not in known_sigs]
+        vs = wres[wpath]
+        if vs is None:
+            harness_errors.append({"spec": "regression witness", "harness_error": "could not replay %s" % wpath})
+            continue
+        vs = [v for v in vs if v["signature"] not in known_sigs]
         regress += 1
         if vs:
             n_viol += 1
@@ -327,12 +348,25 @@ def main(argv=None):
     ap.add_argument("--seed", default=os.environ.get("VERIF_SEED", "1"))
     ap.add_argument("--replay")
     ap.add_argument("--replay-raw")
+    ap.add_argument("--replay-many", nargs="*")
     ap.add_argument("--jobs", type=int)
     a = ap.parse_args(argv)
     try:
         seed = int(a.seed)
     except ValueError:
         seed = 1
+    if a.replay_many is not None:
+        mod = importlib.import_module(a.module)
+        for path in a.replay_many:
+            with open(path) as fh:
+                body = json.load(fh)
+            try:
+                vs = mod.replay(body["case"])
+            except Exception:
+                traceback.print_exc()
+                continue
+            print("REPLAY-RESULT " + json.dumps({"path": path, "violations": vs}, default=repr))
+        return 0
     if a.replay_raw or a.replay:
         path = a.replay_raw or a.replay
         mod = importlib.import_module(a.module)
